@@ -896,6 +896,8 @@ class An:
                 if not self.fail('DIM mismatch in int %s at line %d: %s vs %s facts=%s'%(what,t['loc']['line'],show(a.dim),show(b.dim),[(f[0],show(f[1]),show(f[2])) for f in s.facts]),'eq',a.dim,b.dim):
                     return None
                 s.facts.append(('eq',a.dim,b.dim))    # assumed from here on: it is now the callers' obligation
+            if kind=='rem' and a.val==sym('|x1|') and b.val==sym('|x2|'):
+                return IntV(sym('remabs(a,b)'),a.dim)      # |a| mod |b|: the magnitude of the truncated remainder; its sign is reattached by from_biguint
             if kind=='rem': return IntV({(('rem(a,b)',1),):Fraction(1)} if (a.val==sym('x1') and b.val==sym('x2')) else {(('rem?',1),):Fraction(1)},a.dim)
             return IntV(padd(a.val,b.val,1 if kind=='add' else -1),a.dim)
         if kind=='mul':
@@ -1010,6 +1012,9 @@ class An:
             sg=args[0]; mag=args[1]
             if isinstance(mag,IntV) and (not isinstance(mag.val,dict) or self.kind=='dims'):
                 v=IntV(mag.val,mag.dim)      # dimension bookkeeping only: the sign does not change the dimension
+            elif isinstance(mag,IntV) and mag.val==sym('remabs(a,b)'):
+                # truncated remainder = sign(dividend) * (|a| mod |b|) (zero when the magnitude is zero, whatever the sign says)
+                v=IntV(sym('rem(a,b)') if sg==('signof','x1') else sym('rem?'),mag.dim)
             elif isinstance(mag,IntV):
                 if isinstance(sg,tuple) and sg and sg[0]=='signv': v=IntV(red(pmul(sg[1],mag.val)),mag.dim)
                 elif isinstance(sg,tuple) and sg and sg[0]=='const' and 'Plus' in str(sg[1]): v=IntV(mag.val,mag.dim)
@@ -1028,6 +1033,8 @@ class An:
             if tr.endswith('Assign'):
                 a0.val,a0.dim=r.val,r.dim; v=('int',0)
             else: v=r
+        elif re.search(r'BigInt::magnitude$|BigInt::into_parts$',res) and args and isinstance(args[0],IntV) and res.endswith('magnitude'):
+            v=IntV(absval(args[0].val) if isinstance(args[0].val,dict) else args[0].val,args[0].dim)
         elif re.search(r'Signed::abs$|BigInt::abs$',d) and args and isinstance(args[0],IntV):
             v=IntV(absval(args[0].val) if isinstance(args[0].val,dict) else args[0].val,args[0].dim)
         elif re.search(r'Integer::is_even$',d) and args and isinstance(args[0],IntV):
